@@ -483,6 +483,24 @@ def check_expand_plates(ctx, rep):
     rep.check('C13.M', 'expand_plates::no-list-surgery-under-forward-enumeration', not bad, W, {'traversals': [ast.unparse(l.iter) for l in loops], 'surgery': [norm_text(s_)[:40] for s_ in surgery]},
               f"expand_plates enumerates a list forward ({bad[:1]}) while the callee deletes / inserts at the position it was handed: the element after an empty-range plate is "
               f"skipped and the first object of an expanded plate is never visited, so a plate in that position or nested there survives as an object of type Plate")
+    # the objects of a plate take its place in the order of the plate's range: `parent.insert(i, clone)` with a position that does not move inside the loop puts every clone
+    # BEFORE the previous one (reverse order) — ids and registry are the same, but a list-valued x / parameter list / flow layers are evaluated in another order
+    rev = []
+    for lp in [n for n in ast.walk(fn) if isinstance(n, (ast.For, ast.While))]:
+        for c in ast.walk(lp):
+            if isinstance(c, ast.Call) and isinstance(c.func, ast.Attribute) and c.func.attr == 'insert' and isinstance(c.func.value, ast.Name) and c.func.value.id == parent and len(c.args) == 2:
+                pos = c.args[0]
+                names = {x.id for x in ast.walk(pos) if isinstance(x, ast.Name)}
+                moved = any(isinstance(st, (ast.AugAssign, ast.Assign)) and any(isinstance(x, ast.Name) and x.id in names for t in (st.targets if isinstance(st, ast.Assign) else [st.target])
+                                                                                 for x in ast.walk(t)) for st in ast.walk(lp))
+                moved = moved or any(isinstance(x, ast.Call) and isinstance(x.func, ast.Attribute) and isinstance(x.func.value, ast.Name) and x.func.value.id in names
+                                     and x.func.attr in ('append', 'extend', 'insert', 'pop', 'remove', 'add') for x in ast.walk(lp))
+                loopvars = {x.id for x in ast.walk(lp.target) if isinstance(x, ast.Name)} if isinstance(lp, ast.For) else set()
+                if not moved and not (names & loopvars):
+                    rev.append(c)
+    rep.check('C13.M', 'expand_plates::objects-of-a-plate-keep-the-order-of-its-range', not rev, where(m, rev[0]) if rev else W, {'insertions_at_a_fixed_position': [norm_text(c)[:50] for c in rev]},
+              f"expand_plates inserts every object of a plate at the same position (`{norm_text(rev[0])[:50] if rev else ''}`) inside the loop over the plate's range: the objects end "
+              f"up in reverse order, so anything that takes them as an ordered list (x of a distribution, CatParameter, flow layers) is evaluated with its components permuted")
     # the objects that replace a plate are expanded themselves
     built = [st.targets[0].id for st in ast.walk(fn) if isinstance(st, ast.Assign) and isinstance(st.targets[0], ast.Name) and isinstance(st.value, ast.List) and not st.value.elts]
     nested = any(isinstance(c, ast.Call) and isinstance(c.func, ast.Name) and c.func.id == fn.name and c.args and isinstance(c.args[0], ast.Name) and c.args[0].id in built + ['clone']
@@ -589,6 +607,84 @@ def check_flag_semantics(ctx, rep):
     return reads
 
 
+def reader_companions(fn, data_name, may):
+    """{g: keys dereferenced on every path of the branch `if '<g>' in data:`} — the keys that must accompany g in a specification the reader accepts; nested presence tests of
+    keys the factory never writes are taken as false"""
+    def key_of_test(t):
+        if isinstance(t, ast.Compare) and len(t.ops) == 1 and isinstance(t.ops[0], ast.In) and isinstance(t.left, ast.Constant) and isinstance(t.comparators[0], ast.Name) \
+                and t.comparators[0].id == data_name:
+            return t.left.value
+        return None
+
+    def derefs(node):
+        return {x.slice.value for x in ast.walk(node) if isinstance(x, ast.Subscript) and isinstance(x.value, ast.Name) and x.value.id == data_name
+                and isinstance(x.slice, ast.Constant) and isinstance(x.ctx, ast.Load)}
+
+    def must(stmts):
+        out = set()
+        for st in stmts:
+            if isinstance(st, ast.If):
+                k = key_of_test(st.test)
+                if k is not None and k not in may:
+                    out |= must(st.orelse)
+                else:
+                    out |= derefs(st.test) | (must(st.body) & must(st.orelse))
+            elif isinstance(st, (ast.For, ast.While, ast.With, ast.Try)):
+                pass
+            else:
+                out |= derefs(st)
+        return out
+    comp = {}
+
+    def walk(stmts):
+        for st in stmts:
+            if isinstance(st, ast.If):
+                k = key_of_test(st.test)
+                if k is not None:
+                    comp[k] = comp.get(k, set()) | (must(st.body) - {k})
+                walk(st.body)
+                walk(st.orelse)
+    walk(fn.body)
+    return {k: v for k, v in comp.items() if v}
+
+
+def factory_written_with(fac):
+    """({g: keys always written in the same block as g}, dynamic?) for the dictionary a json_factory returns"""
+    ret_vars = {n.value.id for n in ast.walk(fac) if isinstance(n, ast.Return) and isinstance(n.value, ast.Name)}
+    dynamic = False
+    top = set()
+    for st in fac.body:
+        if isinstance(st, ast.Assign):
+            if isinstance(st.value, ast.Dict) and any(isinstance(t, ast.Name) and t.id in ret_vars for t in st.targets):
+                top |= {k.value for k in st.value.keys if isinstance(k, ast.Constant)}
+            for t in st.targets:
+                if isinstance(t, ast.Subscript) and isinstance(t.value, ast.Name) and t.value.id in ret_vars and isinstance(t.slice, ast.Constant):
+                    top.add(t.slice.value)
+    with_ = {}
+
+    def block(stmts):
+        nonlocal dynamic
+        keys_here = set()
+        for st in stmts:
+            if isinstance(st, ast.Assign):
+                for t in st.targets:
+                    if isinstance(t, ast.Subscript) and isinstance(t.value, ast.Name) and t.value.id in ret_vars:
+                        if isinstance(t.slice, ast.Constant):
+                            keys_here.add(t.slice.value)
+                        else:
+                            dynamic = True
+        for g in keys_here:
+            sib = (keys_here | top) - {g}
+            with_[g] = sib if g not in with_ else (with_[g] & sib)
+        for st in stmts:
+            for fld in ('body', 'orelse', 'finalbody'):
+                sub = getattr(st, fld, None)
+                if isinstance(sub, list) and sub and isinstance(sub[0], ast.stmt):
+                    block(sub)
+    block(fac.body)
+    return with_, dynamic
+
+
 def check_factories(ctx, rep):
     registered = ctx.classes.registered()
     reads = check_flag_semantics(ctx, rep)
@@ -625,6 +721,22 @@ def check_factories(ctx, rep):
             rep.check('C13.F', key, not missing, W, facts,
                       f"{ci.name}.from_json dereferences {missing} on every path but {ci.name}.json_factory never writes "
                       f"{'them' if len(missing) > 1 else 'it'}: specifications produced by the factory do not load")
+        # keys that must come together: where the reader, having found key g, dereferences key k on every path, the factory writes k wherever it writes g
+        try:
+            dn_ = r[1].args.args[1].arg if len(r[1].args.args) > 1 else 'data'
+            comp = reader_companions(r[1], dn_, {k for k in resolved if isinstance(k, str)})
+            with_, dyn = factory_written_with(fac)
+        except Exception:
+            comp, with_, dyn = {}, {}, False
+        for g, ks in sorted(comp.items()):
+            ckey = f"{key}::'{g}'-is-written-together-with-{sorted(ks)}"
+            if g in with_:
+                lack = sorted(ks - with_[g])
+                rep.check('C13.F', ckey, not lack, W, {'reader_needs': sorted(ks), 'factory_writes_with_it': sorted(with_[g])},
+                          f"{ci.name}.from_json, when '{g}' is present, dereferences {lack} on every path, but {ci.name}.json_factory writes '{g}' without "
+                          f"{'them' if len(lack) > 1 else 'it'}: the specification it produces does not load (or loads as something else)")
+            elif dyn:
+                rep.undecided('C13.F', ckey, W, f"the factory writes its keys dynamically: cannot confirm that '{g}' is written together with {sorted(ks)}")
         # a key the reader consults only by presence must be written by the factory only conditionally
         pres = {k for k, d in reads.items() for c2, f2, nd in d['presence'] if f2 is r[1]}
         uncond = set()
@@ -721,6 +833,8 @@ def check_updates_reach_every_holder(ctx, rep):
     for cls in sorted(ctx.classes.classes.values(), key=lambda c: c.qualname):
         if cls.module.name.startswith('torchtree.core.') and (cls.has_base('torchtree.core.parametric.Parametric') or cls.has_base('torchtree.core.abstractparameter.AbstractParameter')):
             c11.check_handlers(ctx, RuleProxy(rep, 'C13.U', 'handlers::'), kinds_, cls)
+    # a value kept across calls must not outlive the update of what it was computed from (C11.M rules, package-wide)
+    c11.check_memo_keys(ctx, RuleProxy(rep, 'C13.U', 'memo::'))
     for q in ('torchtree.core.model.CallableModel',):
         base = ctx.classes.get(q)
         for meth in ('handle_parameter_changed', 'handle_model_changed'):
